@@ -54,7 +54,7 @@ type c19Geom struct {
 
 func c19Geoms() []c19Geom {
 	var gs []c19Geom
-	mags := []float32{1.0 / 64, 1, 37.5, 1024}
+	mags := []float32{1.0 / 64, 1, 37.5, 1024, 65536}
 	dirs := [][2]float32{{1, 0}, {0, 1}, {0.6, 0.8}, {-0.8, 0.6}, {1, 1}, {-3, 0.5}}
 	for _, mg := range mags {
 		for _, d := range dirs {
@@ -105,6 +105,9 @@ func c19Stops(n, model int) []generate.GradientStop {
 			off = float32(i) / float32(n-1)
 			if model%2 == 1 {
 				off = 0.25 + off/2 // first stop above 0, last below 1
+			}
+			if model == 2 && n%7 == 3 && i == 1 {
+				off = 1.0 / (1 << 21) // a hard edge: 5e-7 above the first stop
 			}
 		}
 		st[i] = generate.GradientStop{Offset: off, Color: c19Color(model, i, n)}
@@ -605,13 +608,19 @@ func c19Check(w *mc.W, cs *c19Case) {
 	// once more, without a Reset, after its contents changed. Each time the registers the
 	// gradient value names must hold the stops as they are at the call.
 	if cs.NStops >= 1 && cs.CSel%8 == 5 {
+		wantCSel, wantNSel := cs.CSel, cs.NSel
 		for round := 2; round <= 4; round++ {
 			n1 := len(rd.Calls)
 			switch round {
 			case 2:
 				g.Reset(c19VB, ivg.DefaultPalette)
-				g.SetCSel(uint8(cs.CSel))
-				g.SetNSel(uint8(cs.NSel))
+				if cs.NSel%2 == 1 && cs.CSel < 10 && cs.NStops < 55 {
+					// no explicit selector writes: after Reset both selectors are 0, whatever they were before
+					wantCSel, wantNSel = 0, 0
+				} else {
+					g.SetCSel(uint8(cs.CSel))
+					g.SetNSel(uint8(cs.NSel))
+				}
 			case 3:
 				for i := range stops {
 					stops[i].Color = c19Color((cs.Model+1)%4, i+3, len(stops))
@@ -627,6 +636,7 @@ func c19Check(w *mc.W, cs *c19Case) {
 				g.SetCReg(0, false, rgba(9, 9, 9, 9))
 				g.SetCSel(uint8(cs.CSel))
 				g.SetNSel(uint8(cs.NSel))
+				wantCSel, wantNSel = cs.CSel, cs.NSel
 				n1 = len(rd.Calls)
 			}
 			if rerr := call(stops); rerr != nil {
@@ -649,9 +659,16 @@ func c19Check(w *mc.W, cs *c19Case) {
 			vm = vm2
 			mirror(rd.Calls[from:])
 			vm2, vm = vm, keep
-			k2, gv2 := rec.ColorParts(rd.Calls[n1+map[int]int{2: 3, 3: 0, 4: 0}[round]].C)
-			if k2 != rec.KRGBA || !ref.IsGradient(gv2) || vm2.CReg[cs.CSel] != gv2 || int(vm2.CSel) != cs.CSel || int(vm2.NSel) != cs.NSel {
-				fail("repeat:gradient-register", fmt.Sprintf("call %d: CREG[CSEL] holds %v, selectors %d/%d; calls: %s", round, vm2.CReg[cs.CSel], vm2.CSel, vm2.NSel, rec.CallsString(rd.Calls[n1:])))
+			first := n1
+			if round == 2 {
+				first = n1 + 1 // after Reset ...
+				if wantCSel == cs.CSel && wantNSel == cs.NSel && !(cs.NSel%2 == 1 && cs.CSel < 10 && cs.NStops < 55) {
+					first = n1 + 3 // ... and the two selector writes
+				}
+			}
+			k2, gv2 := rec.ColorParts(rd.Calls[first].C)
+			if k2 != rec.KRGBA || !ref.IsGradient(gv2) || vm2.CReg[wantCSel] != gv2 || int(vm2.CSel) != wantCSel || int(vm2.NSel) != wantNSel {
+				fail("repeat:gradient-register", fmt.Sprintf("call %d: CREG[CSEL=%d] holds %v, selectors %d/%d (expected %d/%d); calls: %s", round, wantCSel, vm2.CReg[wantCSel], vm2.CSel, vm2.NSel, wantCSel, wantNSel, rec.CallsString(rd.Calls[n1:])))
 				return
 			}
 			cb, nb := gv2.G&63, gv2.B&63
